@@ -101,10 +101,12 @@ def run(ctx):
     never = sorted(a for a, (d, g) in r.actions.items() if g == 0 and a not in ('Init',))
     ctx.note('MC %s: %d distinct states, %d transitions, depth %d; actions never taken: %s'
              % (cfg, r.distinct, r.generated, r.depth, never or 'none'))
+    witness = [s['path'] for s in states if s.get('path')]
+    witness.sort(key=repr)
     states = [{k: s[k] for k in ('ins', 'outs', 'sink', 'source')} for s in states]
     states.sort(key=repr)
     # 2. STEP: candidate operations at TLC-dumped states, executed on the real objects
-    n_states = 250 if quick else len(states)
+    n_states = 250 if quick else 6000
     sample = states if n_states >= len(states) else rng.sample(states, n_states)
     step_traces = run_steps(uni, sample, rng, per_op=2 if quick else 3, prefix='S')
     # 3. SIM: TLC-simulated behaviours on the larger universe, replayed on the real objects
@@ -118,15 +120,19 @@ def run(ctx):
     big = fs.UNIVERSES['big']
     sim_traces = run_paths(big, paths, 'P')
     # plus the witness paths TLC recorded for dumped states (history-reached versions of those states)
+    wsample = witness if not quick else rng.sample(witness, min(300, len(witness)))
+    wit_traces = run_paths(uni, wsample, 'W')
     # 4. trace validation by TLC
     stats = dict(steps_in_contract=0, steps_ooc=0, traces_truncated_ooc=0, ops={})
     defs, cfgc = fs.tla_constants(uni, max_len=2, max_xs=2)
     v1 = tlc.validate_traces('Flowsheet', defs, cfgc, step_traces, procs=16)
     judge(ctx, uni, step_traces, v1, stats)
+    v3 = tlc.validate_traces('Flowsheet', defs, cfgc, wit_traces, procs=16)
+    judge(ctx, uni, wit_traces, v3, stats)
     defs, cfgc = fs.tla_constants(big, max_len=4, max_xs=3)
     v2 = tlc.validate_traces('Flowsheet', defs, cfgc, sim_traces, procs=16)
     judge(ctx, big, sim_traces, v2, stats)
-    n_tr = len(step_traces) + len(sim_traces)
+    n_tr = len(step_traces) + len(sim_traces) + len(wit_traces)
     sample_trace = None
     if sim_traces:
         t = sim_traces[0]
@@ -140,8 +146,8 @@ def run(ctx):
                mc_actions={a: list(c) for a, c in sorted(r.actions.items())},
                mc_actions_never_taken=never,
                dumped_states_used=len(sample), dumped_states_total=len(states),
-               sim_behaviours=len(sim_traces), sim_depth=depth,
-               exhaustive=(not quick),
+               sim_behaviours=len(sim_traces), witness_paths_replayed=len(wit_traces), sim_depth=depth,
+               exhaustive=False, mc_exhaustive_for_cfg=True,
                samples=[sample_trace, dict(step_state=sample[0], step_ops=[[s['op'], s['a']] for s in step_traces[0]['steps'][:5]])],
                rule='MC: complete reachable graph of Flowsheet.tla for the cfg; STEP: sampled operations at TLC-dumped states; '
                     'SIM: TLC -simulate behaviours on 6 units/10 streams; every recorded step validated by TLC against Pre/Post/invariants')
